@@ -114,10 +114,26 @@ Proof.
   all: repeat match goal with |- context [match ?b with SWr _ => _ | SEnd => _ end] => destruct b eqn:? end.
   all: z_hyps.
   all: try (specialize (Hnofl eq_refl)).
-  all: try (destruct (add_task_fields3 s) as (F1 & F2 & F3 & F4 & F5)).
+  all: try match goal with |- context [add_task ?x] => destruct (add_task_fields3 x) as (F1 & F2 & F3 & F4 & F5) end.
   all: constructor; unfold tot_ok; simpl; rewrite ?F1, ?F2, ?F3, ?F4, ?F5; auto; try lia.
   all: try (intros j p n' Hj Hpn; apply nth_error_upd_inv in Hj; destruct Hj as [[-> ->]|[Hne Hj]];
             [ simpl in Hpn; try discriminate; inversion Hpn; subst; try lia; try (apply Hni; reflexivity)
             | try (apply ws_add_task_inv in Hj; destruct Hj as [->|Hj]; [discriminate|]); eapply Hn; eauto ]).
-  all: match goal with |- ?g => idtac g end.
-Admitted.
+  all: try match goal with E : conn _ = _ |- _ => rewrite ?E end.
+  all: try match goal with E : closed _ = _ |- _ => rewrite ?E end.
+  all: auto.
+  all: try (intros; congruence).
+  all: try (intros Hx; destruct (Hc3 Hx); [congruence|auto]; fail).
+  all: try (destruct (io s) eqn:Eio; simpl in *; try discriminate; intros; try lia;
+            try (specialize (Ht3 ltac:(assumption)); lia); try congruence; fail).
+  specialize (Hni n eq_refl). lia.
+Qed.
+
+Lemma inv3_step : forall c s ch s' l,
+  Inv1 s -> Inv2 s -> Inv3 s -> step c s ch = Some (s', l) -> taint s' = false -> Inv3 s'.
+Proof.
+  intros c s ch s' l HI1 HI2 HI H Ht. unfold step in H. destruct ch;
+    try (eapply inv3_step_io; eauto; fail); try (eapply inv3_step_w; eauto; fail).
+  - destruct (gone s); [discriminate|]. inversion H; subst. destruct HI. constructor; simpl; auto.
+  - destruct (gone s); [discriminate|]. inversion H; subst. destruct HI. constructor; simpl; auto.
+Qed.
